@@ -8,7 +8,7 @@
 import ast
 
 from mmsa import core, dataflow
-from mmsa.core import norm
+from mmsa.core import dotted, norm
 
 LOWERED_ANCHORS = (
     'tbrmatchedmarkets.TBRMatchedMarkets.greedy_search',
@@ -151,6 +151,43 @@ def canonical_iteration_forms(f):
     comp = ast.ListComp(elt=elt, generators=[ast.comprehension(target=loop.target, iter=loop.iter, ifs=conds, is_async=0)])
     return ast.Assign(targets=[ast.Name(id=x, ctx=ast.Store())], value=comp, lineno=init.lineno, col_offset=init.col_offset)
 
+  def flag_loop(init, loop):
+    """ok = True; for T in IT: [if P: continue]* ; ok = False; break      ->  ok = all(P1 or P2 .. for T in IT)
+       ok = True; for T in IT: if C: ok = False; break                     ->  ok = all(not C for T in IT)
+       hit = False; for T in IT: if C: hit = True; break                   ->  hit = any(C for T in IT)
+    (the flag is a plain local; the loop has no else; the tests are evaluated in the same order and the iteration stops
+    at the same element as the short-circuiting builtin does)."""
+    if not (isinstance(init, ast.Assign) and len(init.targets) == 1 and isinstance(init.targets[0], ast.Name)
+            and isinstance(init.value, ast.Constant) and isinstance(init.value.value, bool)):
+      return None
+    if not (isinstance(loop, ast.For) and not loop.orelse and loop.body):
+      return None
+    x, v0 = init.targets[0].id, init.value.value
+
+    def sets_flag_and_breaks(stmts, val):
+      return len(stmts) == 2 and isinstance(stmts[0], ast.Assign) and len(stmts[0].targets) == 1 and isinstance(stmts[0].targets[0], ast.Name) \
+          and stmts[0].targets[0].id == x and isinstance(stmts[0].value, ast.Constant) and stmts[0].value.value is val and isinstance(stmts[1], ast.Break)
+    names_ok = lambda e: not any(isinstance(n, ast.Name) and n.id == x for n in ast.walk(e)) and not any(isinstance(n, (ast.NamedExpr, ast.Yield, ast.YieldFrom, ast.Await)) for n in ast.walk(e))
+    body = loop.body
+    cond = None
+    # form B / C: a single `if C: flag = <not v0>; break`
+    if len(body) == 1 and isinstance(body[0], ast.If) and not body[0].orelse and sets_flag_and_breaks(body[0].body, not v0) and names_ok(body[0].test):
+      c = body[0].test
+      if v0:      # ok = True ... if C: ok = False; break  -> all(not C)
+        cond, fn = (c.operand if isinstance(c, ast.UnaryOp) and isinstance(c.op, ast.Not) else ast.UnaryOp(op=ast.Not(), operand=c)), 'all'
+      else:       # hit = False ... if C: hit = True; break -> any(C)
+        cond, fn = c, 'any'
+    # form A: guard clauses with continue, then flag = False; break
+    elif v0 and len(body) >= 3 and sets_flag_and_breaks(body[-2:], False) \
+        and all(isinstance(b, ast.If) and not b.orelse and len(b.body) == 1 and isinstance(b.body[0], ast.Continue) and names_ok(b.test) for b in body[:-2]):
+      tests = [b.test for b in body[:-2]]
+      cond, fn = (tests[0] if len(tests) == 1 else ast.BoolOp(op=ast.Or(), values=tests)), 'all'
+    if cond is None or not names_ok(loop.iter):
+      return None
+    gen = ast.GeneratorExp(elt=cond, generators=[ast.comprehension(target=loop.target, iter=loop.iter, ifs=[], is_async=0)])
+    return ast.Assign(targets=[ast.Name(id=x, ctx=ast.Store())], value=ast.Call(func=ast.Name(id=fn, ctx=ast.Load()), args=[gen], keywords=[]),
+                      lineno=init.lineno, col_offset=init.col_offset)
+
   def block(stmts):
     out = []
     i = 0
@@ -166,6 +203,17 @@ def canonical_iteration_forms(f):
       if isinstance(st, ast.Try):
         for hd in st.handlers:
           hd.body = block(hd.body)
+      if i + 1 < len(stmts):
+        merged = flag_loop(st, stmts[i + 1])
+        # the loop variable must not be read after the loop (the comprehension does not leak it)
+        if merged is not None:
+          tnames = {n.id for n in ast.walk(stmts[i + 1].target) if isinstance(n, ast.Name)}
+          later = any(isinstance(n, ast.Name) and n.id in tnames and isinstance(n.ctx, ast.Load) for s_ in stmts[i + 2:] for n in ast.walk(s_))
+          if not later:
+            out.append(merged)
+            changed[0] = True
+            i += 2
+            continue
       if i + 1 < len(stmts):
         merged = append_loop(st, stmts[i + 1])
         if merged is not None:
@@ -264,6 +312,22 @@ def unroll_literal_loops(f, only_data_driven=False):
     if isinstance(it, ast.Name) and it.id in f.module.assigns and not any(
         isinstance(s, ast.Name) and s.id == it.id and isinstance(s.ctx, ast.Store) for s in ast.walk(node)):
       return literal_of(f.module.assigns[it.id])        # module-level table
+    # iteration over an enumeration class of the package: its members in definition order (Enum.__iter__; aliases --
+    # members bound to a value that an earlier member has -- are skipped by Python, so such enumerations are left alone)
+    if isinstance(it, (ast.Name, ast.Attribute)) and REPO[0] is not None and not (isinstance(it, ast.Name) and any(
+        isinstance(s, ast.Name) and s.id == it.id and isinstance(s.ctx, ast.Store) for s in ast.walk(node))):
+      try:
+        r_ = REPO[0].resolve_dotted(f.module, dotted(it))
+      except Exception:
+        r_ = None
+      if r_ and r_[0] == 'class' and any(b_.split('.')[-1] in ('Enum', 'IntEnum', 'StrEnum') for b_ in r_[1].bases):
+        c_ = r_[1]
+        members = [(st_.targets[0].id, st_.value) for st_ in c_.node.body if isinstance(st_, ast.Assign) and len(st_.targets) == 1
+                   and isinstance(st_.targets[0], ast.Name) and not st_.targets[0].id.startswith('_')]
+        vals_ = [norm(v_) for _, v_ in members]
+        if members and len(set(vals_)) == len(vals_) and all(isinstance(v_, (ast.Constant, ast.Tuple)) for _, v_ in members) \
+            and not any(isinstance(st_, ast.AnnAssign) for st_ in c_.node.body):
+          return ast.Tuple(elts=[ast.Attribute(value=dataflow.clone(it), attr=n_, ctx=ast.Load()) for n_, _ in members], ctx=ast.Load())
     if isinstance(it, ast.Name):
       defs = [s for s in walk_no_nested(node) if isinstance(s, ast.Name) and s.id == it.id and isinstance(s.ctx, ast.Store)]
       if len(defs) == 1 and isinstance(getattr(defs[0], '_parent', None), ast.Assign) and len(defs[0]._parent.targets) == 1:
@@ -389,6 +453,9 @@ def unroll_literal_loops(f, only_data_driven=False):
       out.append(st)
     return out
   node.body = block(node.body)
+  if changed[0] and REPO[0] is not None:
+    from mmsa import specialise as _sp
+    node.body = [_sp.fold_enum_values_in(REPO[0], f.module, s_) for s_ in node.body]
   if changed[0]:
     # tables that only fed an unrolled loop are dead now
     loads = {x.id for x in ast.walk(node) if isinstance(x, ast.Name) and isinstance(x.ctx, ast.Load)}
@@ -737,14 +804,19 @@ def _data_driven(loop):
   for b in loop.body:
     for x in ast.walk(b):
       if isinstance(x, ast.Call) and isinstance(x.func, ast.Name) and x.func.id in ('setattr', 'getattr') and len(x.args) >= 2 \
-          and isinstance(x.args[1], ast.Name) and x.args[1].id in names:
-        return True
+          and (isinstance(x.args[1], ast.Name) and x.args[1].id in names
+               or isinstance(x.args[1], ast.Attribute) and x.args[1].attr in ('value', 'name') and isinstance(x.args[1].value, ast.Name) and x.args[1].value.id in names):
+        return True       # (var.value / var.name: the loop runs over an enumeration)
       if isinstance(x, ast.Call) and isinstance(x.func, ast.Name) and x.func.id in names:
         return True       # the table holds the function to apply
   return False
 
 
+REPO = [None]
+
+
 def lower_repo(repo):
+  REPO[0] = repo
   done = []
   for q, f in list(repo.functions.items()):
     saved = (f.node, f.nested, getattr(f, '_private_clone', False))
